@@ -24,6 +24,10 @@ type Value interface{}
 
 type FloatV struct{ F float64 }
 
+// SymBytesV is []byte(s) for a symbolic string s. It has no element model: only the
+// hash models (hashmodel.go) consume it, every other use is reported as unsupported.
+type SymBytesV struct{ S *Term }
+
 type Cell struct {
 	id  int
 	V   Value
